@@ -48,6 +48,24 @@ theorem gen_crc16_one_byte : ∀ i : Fin 256, crc16 [i.val] = Spec.crc16 [i.val]
 theorem gen_crc8_one_byte : ∀ i : Fin 256, crc8 [i.val] = Spec.crc8 [i.val] := by
   decide +kernel
 
+/-- **The residual the encoder records is the exact difference** `sample − ⌊Σ cᵢ·xᵢ / 2^shift⌋` whenever it records one, so
+    the RFC's exact reconstruction `residual + prediction` gives the sample back - also when the prediction itself lies
+    outside 32 bits (32-bit audio with a large step), where a prediction truncated before the subtraction would encode
+    the sample plus a multiple of 2^32.  (`encResidualStep` is regenerated from `encode_residuals`.) -/
+theorem residual_exact (x sum : Int) (shift : Nat) (r : Int) (h : encResidualStep x sum shift = some r) :
+    r + sum / 2 ^ shift = x ∧ fitsS 32 r = true := by
+  simp only [encResidualStep, checkedSubS, Int.toNat_natCast] at h
+  split at h
+  · rename_i hf
+    simp only [Option.some.injEq] at h
+    subst h
+    exact ⟨by omega, hf⟩
+  · simp at h
+
+/-- the step that exposed the truncation: warm-up −1553219575, 1939558944 with coefficients 2, −1 predicts 5432337463,
+    which is outside 32 bits; the residual is refused rather than wrapped -/
+example : encResidualStep 1939558944 (2 * 1939558944 - -1553219575) 0 = none := by decide
+
 /-! ### header code tables (RFC 9639 §9.1.1–§9.1.4, Tables 14–17) written from the RFC -/
 
 def rfcBlockSizes : List (Nat × Nat) :=
